@@ -862,6 +862,15 @@ fn rand_ratio_tv(rng: &mut Rng, kind: &str) -> Value {
     }
 }
 
+fn rand_ratio_any(rng: &mut Rng) -> Value {
+    let kind = if rng.below(4) == 0 { "RX" } else { "R" };
+    rand_ratio_tv(rng, kind)
+}
+fn rand_prec(rng: &mut Rng) -> u64 {
+    let hi = if rng.coin() { 4 } else { 40 };
+    1 + rng.below(hi)
+}
+
 fn random_case(rng: &mut Rng, max_words: usize) -> Value {
     let modes = MODES;
     match rng.below(100) {
@@ -904,21 +913,21 @@ fn random_case(rng: &mut Rng, max_words: usize) -> Value {
                     }
                     if rng.coin() { tv_i(&v) } else { tv_u(&v.unsigned_abs()) }
                 }
-                2 | 3 => rand_ratio_tv(rng, if rng.below(4) == 0 { "RX" } else { "R" }),
+                2 | 3 => rand_ratio_any(rng),
                 4 | 5 | 6 => rand_fbig_tv(rng, "F", false),
                 _ => rand_fbig_tv(rng, "FR", false),
             };
             json!({"op": "to_f", "x": x, "ft": ft, "mode": *rng.pick(modes)})
         }
-        75..=79 => json!({"op": "to_f_fast", "x": rand_ratio_tv(rng, if rng.coin() { "R" } else { "RX" }), "ft": if rng.coin() { "f32" } else { "f64" }}),
+        75..=79 => json!({"op": "to_f_fast", "x": rand_ratio_any(rng), "ft": if rng.coin() { "f32" } else { "f64" }}),
         // ---- RBig::to_float
-        80..=87 => json!({"op": "to_float", "x": rand_ratio_tv(rng, if rng.below(4) == 0 { "RX" } else { "R" }),
-            "base": *rng.pick(BASES), "mode": *rng.pick(modes), "p": 1 + rng.below(if rng.coin() { 4 } else { 40 })}),
+        80..=87 => json!({"op": "to_float", "x": rand_ratio_any(rng),
+            "base": *rng.pick(BASES), "mode": *rng.pick(modes), "p": rand_prec(rng)}),
         // ---- to_int family
         88..=93 => {
             if rng.coin() {
                 let rule = *rng.pick(&["trunc-fract", "trunc", "floor", "ceil", "half-away"]);
-                json!({"op": "to_int", "x": rand_ratio_tv(rng, if rng.below(4) == 0 { "RX" } else { "R" }), "rule": rule, "mode": "Zero"})
+                json!({"op": "to_int", "x": rand_ratio_any(rng), "rule": rule, "mode": "Zero"})
             } else {
                 let kind = if rng.below(4) == 0 { "FR" } else { "F" };
                 let mut x = rand_fbig_tv(rng, kind, false);
